@@ -7,5 +7,8 @@ mkdir -p target
 clang -O2 -fPIC -shared -Wno-pointer-bool-conversion -o target/psim_shim.so psim/shim/psim_shim.c -ldl
 (cd psim && cargo build --offline --release 2>&1 | tail -3)
 # build the system under test once so that the first check does not pay for it
-CARGO_TARGET_DIR=/verif/target/sut cargo build --offline --bin redo --manifest-path "${PSIM_REPO:-/repo}/Cargo.toml" 2>&1 | tail -2
+# (runs against a scratch copy, PSIM_REPO, build into their own directory later)
+if [ -z "$PSIM_REPO" ]; then
+  CARGO_TARGET_DIR="${PSIM_VERIF:-/verif}/target/sut" cargo build --offline --bin redo --manifest-path /repo/Cargo.toml 2>&1 | tail -2
+fi
 echo setup done
